@@ -340,6 +340,10 @@ def run(ctx):
     for a_, b_, c_ in itertools.product(nb, ex, nb):
         texts.append(a_ + b_ + c_)
         texts.append(a_ + " " + b_ + " " + c_)
+    # characters that some tools put in front of a text or treat as blank: each is an ANY token wherever it stands
+    for ch in ("\ufeff", "\u00a0", "\u200b", "\x0c", "\x00", "\ufffe"):
+        for e_ in ex[::5] + ["name a\nversion 1.0\nG | 0\n"]:
+            texts += [ch + e_, ch + ch + e_, e_ + ch, " " + ch + e_, e_ + ch + e_]
     res = pool.pmap(_lex_case, texts, chunk=200)
     lex_bad = 0
     for t, r in zip(texts, res):
@@ -436,6 +440,12 @@ def run(ctx):
                     prev = t
                 if cases.setdefault("".join(out_), ("spelling", "-")) == ("spelling", "-"):
                     nspell += 1
+    for ch in ("\ufeff", "\u00a0", "\u200b", "\x0c"):
+        for r in rules[:6]:
+            if r in cx:
+                t_ = sentences.to_text(cx[r][0] + sh[r] + cx[r][1])
+                cases.setdefault(ch + t_, ("prefix-character", r))
+                cases.setdefault(t_ + ch, ("suffix-character", r))
     texts_e = sorted(cases)
     texts_e = common.shard(texts_e, ctx.seed)
     res = pool.pmap(_parse_case, texts_e, chunk=100)
